@@ -44,7 +44,9 @@ ALLOWED = ("NoSuchProcess", "ZombieProcess", "AccessDenied")
 RULE = ("every Linux Process query reachable through psutil.Process (all of psutil._as_dict_attrnames, is_running, parent, "
         "parents, children, children(recursive), as_dict() in full and for attribute groups sharing a oneshot cache, "
         "process_iter(attrs)) x base kind {live, kernel thread, zombie, live with racing descriptor/thread/smaps_rollup} x "
-        "EVERY access index k of the call (count taken from a dry run of the model / implementation) x fault "
+        "EVERY access index k of the call -- procfs accesses and the accesses outside procfs (os.stat of link targets, of "
+        "'(deleted)' paths of exe/cwd/fd links and smaps mappings, isfile/access of cmdline[0], tty nodes) -- (count taken "
+        "from a dry run of the model) x fault "
         "{vanish at k, EACCES at k, EPERM at k (quick: every fourth k)}; thorough adds every pair (deny at i, vanish at j>i). After every vanish all "
         "OS-consulting queries are called again on the same object. A case is non-trivial when the fault fires "
         "(k below the number of accesses); distinct = distinct (kind, method, fault schedule).")
